@@ -111,8 +111,7 @@ CommitBlockTxs, UndoBlockTxs, BlockTrusted, ParseTillBlock, MoveToBlock (reorgan
 AcceptBlock, writeOne/writeAll, Idle, Close, NewChainExt, the client's recovery loop, a restart in the middle of the
 history (Proofs/C07Ops.lean, C07Run.lean, C07Hist.lean).
 
-The central statement `crash_consistent` is proved below (`crash_consistent`, after `crash_reopen_partial` and the two no-panic
-theorems), with these hypotheses:
+The central statement `crash_consistent` is proved below (after the two no-panic theorems), with these hypotheses:
   * `WF (submitted ops)` — see above;
   * "no undo file of another block is read": by the uninterrupted run (`(run bigs ops).foreign = false`) and by the restart after
     crash point k (`crashForeign bigs ops k = false`, the ghost flag of the three stages computed WITHOUT stopping at a panic) —
@@ -394,6 +393,14 @@ theorem dat_positions_need_the_seek :
 theorem dat_rollover_sound (maxSize : Nat) (ops : List ROp) (hl : ∀ op ∈ ops, rlenPos op) :
     rreadsBack (rrun false maxSize {} ops).d = true :=
   rreadsBack_of (rrun_inv maxSize ops {} rinit_inv hl).disk
+
+/-- the same from ANY directory in which every index record has its data (distinct positions per file, positive lengths), e.g. a
+    block store filled earlier with another MaxDataFileSize -/
+theorem dat_rollover_sound_from (maxSize : Nat) (d : RDisk) (hd : RDiskInv d) (ops : List ROp) (hl : ∀ op ∈ ops, rlenPos op) :
+    rreadsBack (rrun false maxSize (ropen false d) ops).d = true :=
+  rreadsBack_of (rrun_inv maxSize ops _ (ropen_inv hd) hl).disk
+
+example : ∃ d : RDisk, RDiskInv d := ⟨{}, rinit_inv.disk⟩
 
 example : ∀ op ∈ [ROp.write 1 300, .write 2 300, .crashRoll 3 300, .restart, .crashMid 3 200, .write 3 200], rlenPos op := by
   intro op h
